@@ -77,12 +77,14 @@ func genUintNBiased(s bitStream, max uint64) (uint64, bool, bool) {
 	for {
 		i := s.beginGroup(intBitsLabel, false)
 		u := s.drawBits(bitlen)
-		ok := bitlen > 64 || u <= max
+		// "overflow to max" is always recorded as an all-ones block: anything else would, once minimization
+		// lowers the bias block, turn into some unrelated (small) value instead of the widest one
+		ok := (bitlen > 64 && u == math.MaxUint64) || (bitlen <= 64 && u <= max)
 		s.endGroup(i, !ok)
-		if bitlen > 64 {
+		if ok && bitlen > 64 {
 			u = max
 		}
-		if u <= max {
+		if ok {
 			return u, u == 0 && n == 1, u == max && bitlen >= int(n)
 		}
 	}
